@@ -161,6 +161,26 @@ func (e *env) setup(dir string, p *program) {
 	e.content = make([]byte, size)
 	rng.Read(e.content)
 
+	// Phase 1: create the object, then stop that storage instance.  The part
+	// GC loop wakes up every 30 s and collects when it has seen writes since
+	// its last look; that background pass would take connections from the read
+	// pool in the middle of a program.  The instance the programs run on
+	// (phase 2) never sees a write, so its GC loop stays idle.
+	e.bucket = storage.MustNewBucketName("txreaders")
+	e.key = storage.MustNewObjectKey("obj")
+	b0, err := stacks.Open("sql", filepath.Join(dir, "stack"))
+	must(err)
+	must(b0.Storage.CreateBucket(ctx, e.bucket))
+	up, err := b0.Storage.CreateMultipartUpload(ctx, e.bucket, e.key, nil, nil, nil)
+	must(err)
+	for i := 0; i < p.NParts; i++ {
+		_, err := b0.Storage.UploadPart(ctx, e.bucket, e.key, up.UploadId, int32(i+1), bytes.NewReader(e.content[i*p.PartSize:(i+1)*p.PartSize]), nil)
+		must(err)
+	}
+	_, err = b0.Storage.CompleteMultipartUpload(ctx, e.bucket, e.key, up.UploadId, nil, nil)
+	must(err)
+	b0.Close()
+
 	b, err := stacks.Open("sql", filepath.Join(dir, "stack"))
 	must(err)
 	e.built = b
@@ -170,17 +190,6 @@ func (e *env) setup(dir string, p *program) {
 	}
 	e.sdb = dbs[0]
 	e.rpool = readPoolOf(e.sdb)
-	e.bucket = storage.MustNewBucketName("txreaders")
-	e.key = storage.MustNewObjectKey("obj")
-	must(b.Storage.CreateBucket(ctx, e.bucket))
-	up, err := b.Storage.CreateMultipartUpload(ctx, e.bucket, e.key, nil, nil, nil)
-	must(err)
-	for i := 0; i < p.NParts; i++ {
-		_, err := b.Storage.UploadPart(ctx, e.bucket, e.key, up.UploadId, int32(i+1), bytes.NewReader(e.content[i*p.PartSize:(i+1)*p.PartSize]), nil)
-		must(err)
-	}
-	_, err = b.Storage.CompleteMultipartUpload(ctx, e.bucket, e.key, up.UploadId, nil, nil)
-	must(err)
 
 	e.dir = dir
 	e.openDirectDB()
